@@ -226,7 +226,7 @@ def good_answer(rng, rq, kt, variant=None):
 
 FAULTS = ['silence', 'garbage', 'truncated', 'truncated', 'corrupted', 'foreign_ack', 'nak_first', 'rejected_mga', 'unrelated',
           'nmea', 'txfail', 'undecodable', 'response_only', 'ack_before_response', 'unregistered_class', 'empty_reads',
-          'stale_ck', 'marker_then_answer_late', 'answer_too_late']
+          'stale_ck', 'marker_then_answer_late', 'answer_too_late', 'reject_marker_answer']
 
 
 def fault_events(rng, rq, kt, fault, mode, delay=100, others=()):
@@ -267,6 +267,18 @@ def fault_events(rng, rq, kt, fault, mode, delay=100, others=()):
         bad = bytearray(ans[0] if ans else G.frame(5, 1, bytes([c, i])))
         bad[-1] ^= 0x55
         return [(bytes(bad) + full, delay + rng.choice([0, 1, 5]))]
+    elif fault == 'reject_marker_answer':
+        # ONE read holding: a frame that ends this attempt without success (foreign ACK for set, rejecting MGA-ACK), a corrupted
+        # frame, and the complete good answer. The answer is decoded BEFORE the next transmission and must not be returned after it.
+        bad = bytearray(G.frame(5, 1, bytes([c, i])))
+        bad[-1] ^= 0x33
+        if rq.op == 'set':
+            first = G.frame(5, 1, bytes([c, (i + 1) % 256]))
+        elif rq.op == 'mga':
+            first = G.frame(0x13, 0x60, bytes([0, 0, 1, i, 1, 2, 3, 4]))
+        else:
+            return [(bytes(bad) + full, delay + rng.choice([0, 1, 5]))]
+        return [(first + bytes(bad) + full, rng.choice([0, 1]))]
     elif fault == 'answer_too_late':
         return [(None, delay + 1), (full, 1)] if full else []
     elif fault == 'nmea':
@@ -348,7 +360,8 @@ def scenario(rng, reqs, kt, n_req=1, force=None, tx_dt=0, rqs=None):
     script = {'pending': pending, 'attempts': attempts, 'idle': idle, 'drain': rng.random() < 0.5, 'tx_dt': tx_dt,
               'bad_cfg': rng.choice([(), (), (('retries', 11),), (('retries', -1), ('delay', 5001)), (('delay', -1),), (('retries', 100), ('delay', 100000))])}
     plans = [plan[a:b] for a, b in zip(plans, plans[1:] + [len(plan)])]
-    return {'retries': retries, 'delay': delay, 'script': script, 'reqs': rqs, 'plan': plan, 'plans': plans}
+    idle_before = [rng.choice([0, 0, 0, 1000, 31000, 3600000]) for _ in rqs]
+    return {'retries': retries, 'delay': delay, 'script': script, 'reqs': rqs, 'plan': plan, 'plans': plans, 'idle_before': idle_before}
 
 
 def model_cmd(sc, sk):
@@ -367,12 +380,12 @@ def describe(sc):
     return {'retries': sc['retries'], 'delay_ms': sc['delay'], 'idle_dt': sc['script']['idle'],
             'script': Q.script_token(sc['script'])[:3000], 'requests': [f'{rq.op}:{rq.label}' for rq in sc['reqs']],
             'plan': [list(map(str, p)) for p in sc['plan']], 'backend': sc.get('backend', 'scripted subclass of the base class'),
-            'bauds': list(sc.get('bauds', ()))}
+            'bauds': list(sc.get('bauds', ())), 'idle_ms_before_each_request': list(sc.get('idle_before', ()))}
 
 
 def on_gpsd(rng, sc):
     """Turn a scenario into one for the real gpsd backend over scripted sockets (recv(128) on the data socket)."""
-    dev = rng.choice(['/dev/ttyS3', '/dev/gnss0', '/dev/serial/by-id/usb-u-blox_AG'])
+    dev = rng.choice(['/dev/ttyS3', '/dev/gnss0', '/dev/serial/by-id/usb-u-blox_AG', '/dev/gps-\u00e9', '/dev/\u00b5blox0'])
     return dict(sc, script=Q.chunk128(sc['script']), backend='gpsd', bauds=(dev, rng.choice([None, None, dev, '/dev/ttyACM7'])))
 
 
@@ -398,7 +411,7 @@ def run_scenario(sc, loglevel=None):
             return rq.build()
         return b
     return Q.run_impl(sc['script'], sc['retries'], sc['delay'], [(rq.op, builder(rq)) for rq in sc['reqs']], loglevel,
-                      backend=sc.get('backend', 'stub'), bauds=sc.get('bauds', (115200, None)), alarm_s=sc.get('alarm_s', 30))
+                      backend=sc.get('backend', 'stub'), bauds=sc.get('bauds', (115200, None)), alarm_s=sc.get('alarm_s', 30), idle_before=sc.get('idle_before', ()))
 
 
 # ------------------------------------------------------------------ parsing results
